@@ -431,32 +431,58 @@ def _eval_pred(body: List[ast.stmt], op: str, pname: str, m: Module) -> Optional
         c = cond(e)
         if c is False:
             return
-        if any(isinstance(x, ast.Call) and _last(call_name(x)) == "_is_scalar_const_value" for x in ast.walk(e)):
+        if guard_ctx[0] or any(isinstance(x, ast.Call) and _last(call_name(x)) == "_is_scalar_const_value" for x in ast.walk(e)):
             accept_guarded = True
         else:
             accept_unguarded = True
 
+    guard_ctx = [0]
+
+    def _rejects_non_scalar(st: ast.If) -> bool:
+        # `if not all(... _is_scalar_const_value(iv) ...): return False` — everything after it runs with scalar side operands
+        t = st.test
+        if not (isinstance(t, ast.UnaryOp) and isinstance(t.op, ast.Not)):
+            return False
+        if not any(isinstance(x, ast.Call) and _last(call_name(x)) == "_is_scalar_const_value" for x in ast.walk(t.operand)):
+            return False
+        return bool(st.body) and not st.orelse and all(isinstance(b, ast.Return) and (b.value is None or (isinstance(b.value, ast.Constant) and not b.value.value)) for b in st.body[-1:])
+
     def run(stmts: List[ast.stmt]) -> bool:
-        """returns True if control may fall through"""
+        """returns True if control may fall through; guard_ctx[0] then holds the guards established on that path"""
         for st in stmts:
             if isinstance(st, ast.Expr):
                 continue
             if isinstance(st, ast.Return):
                 ret(st.value)
                 return False
+            if isinstance(st, ast.If) and _rejects_non_scalar(st):
+                guard_ctx[0] += 1
+                continue
             if isinstance(st, ast.If):
                 c = cond(st.test)
+                g0 = guard_ctx[0]
                 ft_body = ft_else = True
+                g_body = g_else = g0
                 if c is not False:
                     ft_body = run(st.body)
+                    g_body = guard_ctx[0]
+                guard_ctx[0] = g0
                 if c is not True:
                     ft_else = run(st.orelse) if st.orelse else True
-                if c is True and not ft_body:
-                    return False
-                if c is False and not ft_else:
-                    return False
-                if c is None and not ft_body and not ft_else:
-                    return False
+                    g_else = guard_ctx[0]
+                if c is True:
+                    guard_ctx[0] = g_body
+                    if not ft_body:
+                        return False
+                elif c is False:
+                    guard_ctx[0] = g_else
+                    if not ft_else:
+                        return False
+                else:
+                    if not ft_body and not ft_else:
+                        return False
+                    live = [g for g, ft in ((g_body, ft_body), (g_else, ft_else)) if ft]
+                    guard_ctx[0] = min(live)
                 continue
             if isinstance(st, (ast.Assign, ast.AnnAssign)):
                 continue
@@ -791,6 +817,7 @@ def run(res: Results, idx: Index, tier: str) -> None:
     rule_l(res, idx, m)
     rule_m(res, idx, m)
     rule_n(res, idx, m)
+    rule_o(res, idx, m)
 
 
 # ---------------------------------------------------------------------------------------------- R-C02k
@@ -1132,3 +1159,57 @@ def rule_n(res: Results, idx: Index, m: Module) -> None:
             else:
                 res.violation("R-C02n", site, key, f"`{src(c, 50)}` selects the node by name only: the call node of a user's @onnx_function named `{op}` (custom domain) is rewritten as if it were ONNX {op}", fi.qualname)
     res.analysed["op_name_tests"] = n
+
+
+# ---------------------------------------------------------------------------------------------- R-C02o
+def _has_rank_test(nodes) -> Optional[ast.AST]:
+    for st in nodes:
+        for c in ast.walk(st):
+            if isinstance(c, ast.Compare) and any(isinstance(o, (ast.Gt, ast.GtE, ast.Lt, ast.LtE)) for o in c.ops) and any((isinstance(x, ast.Call) and (call_name(x) or "") == "len") or (isinstance(x, ast.Attribute) and x.attr in ("ndim", "rank"))
+                                                  or (isinstance(x, ast.Name) and "rank" in x.id.lower()) for x in ast.walk(c)):
+                return c
+    return None
+
+
+def rule_o(res: Results, idx: Index, m: Module) -> None:
+    """Chain walks step through broadcasting operators (Max / Min / Clip …) when the side operands are size-1 constants.
+    `_is_scalar_const_value` is true for a size-1 constant of ANY rank, and a size-1 constant that out-ranks the walked
+    operand still broadcasts: Reshape-Max-Reshape folded to Max(x:(6,), c:(1,1,1)) returns (1,1,6).  The predicate that
+    admits such operators has to bound the constants' rank by the walked operand's, and the reshape-pair fold — whose
+    source has another rank than the operand inside the chain — has to bound it by the source's rank as well."""
+    res.rule("R-C02o", "chain walks admit broadcasting operators only with side constants whose rank is bounded by the walked operand's (and, for reshape pairs, the source's) rank", floor=2)
+    f = m.funcs.get("_is_first_input_passthrough")
+    if f is None:
+        raise AnalysisError("_is_first_input_passthrough not found")
+    key = f"{OPT}::_is_first_input_passthrough::side-constant-rank"
+    branch = next((st for st in walk_no_nested(f.node) if isinstance(st, ast.If) and "BINARY" in src(st.test, 80).upper()), None)
+    if branch is None:
+        res.unresolved("R-C02o", f.site, key, "the branch for broadcasting operators was not found", f.qualname)
+    else:
+        uses_size1 = any(isinstance(c, ast.Call) and (call_name(c) or "") == "_is_scalar_const_value" for c in ast.walk(branch))
+        direct = [r for r in ast.walk(branch) if isinstance(r, ast.Return) and r.value is not None and any(isinstance(c, ast.Call) and (call_name(c) or "") == "_is_scalar_const_value" for c in ast.walk(r.value))]
+        rk = _has_rank_test(branch.body)
+        if not uses_size1:
+            res.unresolved("R-C02o", f"{OPT}:{branch.lineno}", key, "side operands are not tested with _is_scalar_const_value", f.qualname)
+        elif direct or rk is None:
+            res.violation("R-C02o", f"{OPT}:{(direct[0] if direct else branch).lineno}", key, "broadcasting operators are admitted as soon as every side operand is a size-1 constant, whatever its rank: a (1,1,1) constant next to a "
+                          "rank-1 operand changes the result's rank once the surrounding Reshape / Transpose pair is folded away", f.qualname)
+        else:
+            res.ok("R-C02o", f"{OPT}:{rk.lineno}", key, f"`{src(rk, 60)}` bounds the side constants' rank", f.qualname)
+    g = m.funcs.get("remove_redundant_reshape_pairs_ir")
+    if g is None:
+        raise AnalysisError("remove_redundant_reshape_pairs_ir not found")
+    key = f"{OPT}::remove_redundant_reshape_pairs_ir::side-constant-rank-vs-source"
+    removes = [c for c in walk_no_nested(g.node) if isinstance(c, ast.Call) and (call_name(c) or "").endswith("graph.remove")]
+    walks = [c for c in walk_no_nested(g.node) if isinstance(c, ast.Call) and (call_name(c) or "") == "_is_first_input_passthrough"]
+    if not removes or not walks:
+        res.unresolved("R-C02o", g.site, key, "fold structure not recognised", g.qualname)
+        return
+    between = [st for st in walk_no_nested(g.node) if isinstance(st, ast.If) and walks[0].lineno < st.lineno < removes[0].lineno and any(isinstance(x, ast.Continue) for x in ast.walk(st))]
+    rk = next((st for st in between if _has_rank_test([st.test]) is not None or any(isinstance(c, ast.Call) and "rank" in (call_name(c) or "").lower() for c in ast.walk(st.test))
+               or any(isinstance(x, ast.Name) and "rank" in x.id.lower() for x in ast.walk(st.test))), None)
+    if rk is not None:
+        res.ok("R-C02o", f"{OPT}:{rk.lineno}", key, f"the fold is skipped when `{src(rk.test, 70)}`", g.qualname)
+    else:
+        res.violation("R-C02o", f"{OPT}:{removes[0].lineno}", key, "the reshape-pair fold never compares the rank of the chain's constant side operands with the rank of the source it re-routes the chain to: "
+                      "x:(6,) -> Reshape[2,3] -> Max(., zeros((1,1,1))) -> Reshape[6] becomes Max(x, c) of shape (1,1,6)", g.qualname)
